@@ -95,6 +95,11 @@ def run(prop, gi, g, tier, known, do_replay):
                 rp = {"reproduced": True, "path": meta["log"], "detail": "replay skipped"}
             j["replay"] = rp
             only_unwind = all(f["category"] == "unwind" for f in unlisted)
+            if rp["reproduced"] is not True and any("heap allocation reached" in f["description"] for f in unlisted):
+                # C06: the allocator stub fired; Kani has no symbolic input to play back, so confirm with the counting-allocator program
+                from . import allocreplay
+                rp = allocreplay.confirm(rp["path"])
+                j["replay"] = rp
             in_repo = all(("/repo/" in f["location"] or f["function"].startswith(("elf::", "<elf::"))) for f in unlisted)
             if rp["reproduced"]:
                 out["violations"].append(dict(harness=hid, what=what + f" [native replay: {rp['detail']}]", replay=rp["path"]))
